@@ -163,7 +163,7 @@ func onlyLoggedUse(c *core.Ctx, fbody *ast.BlockStmt, v types.Object) bool {
 			if !isCall {
 				continue
 			}
-			if fn := core.Callee(c.Info, call); fn != nil && fn.Pkg() != nil && strings.Contains(fn.Pkg().Path(), "log") {
+			if fn := core.Callee(c.Info, call); isObservabilitySink(fn) {
 				logged = true
 				break
 			}
@@ -261,7 +261,7 @@ func init() {
 							// (1) directly inside a logger call
 							for i := len(stack) - 2; i >= 0; i-- {
 								if pc, isCall := stack[i].(*ast.CallExpr); isCall {
-									if fn := core.Callee(c.Info, pc); fn != nil && fn.Pkg() != nil && strings.Contains(fn.Pkg().Path(), "log") {
+									if fn := core.Callee(c.Info, pc); isObservabilitySink(fn) {
 										r.OK(label, r.W.Pos(call.Pos()), "value only formatted into a log line")
 										return true
 									}
@@ -398,4 +398,33 @@ var clockExceptions = map[string]string{
 	"util.init":                   "seeds math/rand for test-data helpers (GenNoneTxs…), not used on the execution path",
 	"util.CreateNoneBlock":        "test-data helper (block time of a locally produced test block)",
 	"util.CreateCoinsBlock":       "test-data helper",
+}
+
+// statSinks: result-less collectors of latency statistics (frozen, confirmed by reading): what they
+// receive is only ever printed by the periodic benchmark report.
+var statSinks = map[string]string{
+	"common/db.(*SsdbBench).read":  "latency statistics of the remote key-value backends, printed every five minutes",
+	"common/db.(*SsdbBench).write": "latency statistics of the remote key-value backends, printed every five minutes",
+}
+
+// isObservabilitySink: a call whose arguments only ever end up in log output or statistics.
+func isObservabilitySink(fn *types.Func) bool {
+	if fn == nil {
+		return false
+	}
+	if fn.Pkg() != nil && strings.Contains(fn.Pkg().Path(), "log") {
+		return true
+	}
+	if _, ok := statSinks[core.ShortName(fn)]; ok {
+		return true
+	}
+	// an I/O deadline: the clock only decides whether the remote call times out, which is an environment
+	// failure (it aborts the operation), never a value of the computation
+	if fn.Pkg() != nil && fn.Pkg().Path() == "net" {
+		switch fn.Name() {
+		case "SetDeadline", "SetReadDeadline", "SetWriteDeadline":
+			return true
+		}
+	}
+	return false
 }
